@@ -68,6 +68,11 @@ def translate (op cl : Str) (uri : Str) : Str := (scan uri).flatMap (tokStr op c
 def toChi := translate [cOpen] [cClose]      -- chi, gorilla, std-http: {name}
 def toColon := translate [cColon] []         -- echo, gin, fiber, iris: :name
 
+/-- `SwaggerUriToStdHttpUri`: a ServeMux pattern that ends in a slash would match the whole subtree; `{$}` pins it to
+the path itself. -/
+def toStdHttp (uri : Str) : Str :=
+  if (toChi uri).getLast? = some cSlash then toChi uri ++ [cOpen, 36, cClose] else toChi uri
+
 /-- `ReplacePathParamsWithStr`: the client's format string. -/
 def toFmt := translate [37, 115] []          -- %s   ("$1" is not used)
 def toFmt' (uri : Str) : Str := (scan uri).flatMap fun t => match t with | .lit c => [c] | .var _ => [37, 115]
